@@ -1,4 +1,5 @@
 import Sml.Props.C07
+import Sml.Lemmas.SmallFixes
 /- Axiom audit for property C07: only propext / Classical.choice / Quot.sound may appear. -/
 #print axioms Sml.C07.buf_eq_spec
 #print axioms Sml.C07.buf_vec
@@ -11,3 +12,4 @@ import Sml.Props.C07
 #print axioms Sml.C07.stuff_cons_ne
 #print axioms Sml.C07.stuff_run_general
 #print axioms Sml.C07.stuff_run
+#print axioms Sml.crc16_check_value
